@@ -30,6 +30,9 @@ pub enum Entry {
 pub enum Op {
     /// one query on memo `g` (memos for `Equal` are separate from the subtype memos)
     Q { g: usize, entry: Entry, a: SType, b: SType },
+    /// query between the Candid types of two Rust types (recursive ones are tied with knots
+    /// resolved through the thread-local type memo, not with names)
+    Native { a: String, b: String, entry: Entry },
     /// text-level: is `new` an upgrade of `old`? Both programs are printed by the
     /// harness printer in a seeded presentation.
     Text { new_env: SEnv, new_svc: SType, old_env: SEnv, old_svc: SType, pres: u64 },
@@ -236,6 +239,23 @@ pub fn generate(_prop: &str, tier: Tier, seed: u64, run: u64) -> Sc {
             _ => (wl.pick(&pool).clone(), wl.pick(&pool).clone()),
         };
         ops.push(Op::Q { g, entry, a, b });
+    }
+    // queries between Rust-derived types (knots instead of names)
+    if sched.chance(1, 3) {
+        const NATIVE: [&str; 22] = [
+            "NatTree", "IntTree", "Vec<NatTree>", "Option<IntTree>", "OldList", "NewList", "List", "Rose", "Expr", "MutA", "MutB", "Vec<List>", "Option<MutA>", "RecV1", "RecV2", "RecV3", "Option<VarV1>", "Option<VarV2>", "FuncRef", "FuncRefV2", "ServRef",
+            "ServRefV2",
+        ];
+        for _ in 0..sched.range(1, 3) {
+            let a = wl.pick(&NATIVE).to_string();
+            let b = if wl.chance(1, 5) { a.clone() } else { wl.pick(&NATIVE).to_string() };
+            let entry = match sched.below(4) {
+                0 => Entry::CheckAll,
+                1 => Entry::Equal,
+                _ => Entry::Silence,
+            };
+            ops.push(Op::Native { a, b, entry });
+        }
     }
     // text-level upgrade checks
     if sched.chance(1, 3) {
@@ -652,6 +672,47 @@ fn do_text(l: &mut Local, new_env: &SEnv, new_svc: &SType, old_env: &SEnv, old_s
     }
 }
 
+fn do_native(l: &mut Local, a: &str, b: &str, entry: Entry, log: bool) {
+    let (Some(da), Some(db)) = (crate::corpus::find(a), crate::corpus::find(b)) else {
+        l.probe("skipped_unknown_corpus_type");
+        return;
+    };
+    l.op("native_type_query");
+    // harness-side types of both, in one environment (definition names are unique per Rust type)
+    let mut env = SEnv::new();
+    let sa = (da.sim_type)(&mut env);
+    let sb = (db.sim_type)(&mut env);
+    let oracle = if entry == Entry::Equal { gfp::equal(&env, &sa, &sb) } else { gfp::subtype(&env, &sa, &sb) };
+    let tys = guard(|| ((da.ty)(), (db.ty)()));
+    let (ta, tb) = match tys {
+        Guarded::Done(x) => x,
+        Guarded::Panicked(m) => {
+            l.viol.push(("query-no-panic".into(), format!("ty:{a}/{b}@{}", panic_key(&m)), format!("deriving the types of {a} and {b} panicked: {m}")));
+            return;
+        }
+    };
+    let mut g = Gamma::default();
+    let ans = real_query(entry, &mut g, &TypeEnv::new(), &ta, &tb);
+    if log {
+        l.events.push(format!("native {entry:?} {a} ? {b} -> {ans:?} oracle={oracle}"));
+    }
+    l.states.push(fnv1a(format!("native|{entry:?}|{a}|{b}").as_bytes()));
+    match ans {
+        Err(e) if e.starts_with("panic:") => l.viol.push(("query-no-panic".into(), format!("native:{a}/{b}@{}", panic_key(&e)), format!("{entry:?} on the types of {a} and {b} panicked: {e}"))),
+        Err(_) => l.inconclusive += 1,
+        Ok(real) => {
+            l.nontrivial = true;
+            if real != oracle {
+                l.viol.push((
+                    if entry == Entry::Equal { "equal-decides-structural-equality".into() } else { "answer-equals-spec-relation".into() },
+                    format!("native:{entry:?}:{a} vs {b}"),
+                    format!("{entry:?} on the Candid types of Rust types {a} and {b} (recursion tied with knots) answered {real}; the spec relation on {} vs {} says {oracle}", show_type(&sa), show_type(&sb)),
+                ));
+            }
+        }
+    }
+}
+
 fn run(sc: &Sc, log: bool) -> Local {
     let mut l = Local::default();
     for k in ["query_on_memo_with_history", "oracle_says_no", "memo_grew", "recursion_guard_tripped", "text_program_did_not_load", "text_report_errored", "transitivity_checked"] {
@@ -672,6 +733,7 @@ fn run(sc: &Sc, log: bool) -> Local {
         match op {
             Op::Q { g, entry, a, b } => do_query(&mut l, &r, &mut subs, &mut eqs, *g, *entry, a, b, &mut yes, log),
             Op::Text { new_env, new_svc, old_env, old_svc, pres } => do_text(&mut l, new_env, new_svc, old_env, old_svc, *pres, log),
+            Op::Native { a, b, entry } => do_native(&mut l, a, b, *entry, log),
         }
     }
     // transitivity on every triple the run happened to establish
@@ -728,6 +790,7 @@ pub fn execute(sc: &Sc, ctx: &mut Ctx) -> Result<(), String> {
             .map(|o| match o {
                 Op::Q { g, entry, a, b } => format!("memo{g}: {entry:?} {} <: {}", show_type(a), show_type(b)),
                 Op::Text { .. } => "text-level upgrade check".to_string(),
+                Op::Native { a, b, entry } => format!("native: {entry:?} {a} vs {b}"),
             })
             .collect();
         ctx.stats.sample(serde_json::json!({"env": show_prog(&sc.env, &sc.env.0.keys().cloned().collect::<Vec<_>>(), None), "rename": sc.rename, "history": ops}));
@@ -746,6 +809,7 @@ pub fn size(sc: &Sc) -> usize {
         .map(|o| match o {
             Op::Q { a, b, .. } => 4 + a.nodes() + b.nodes(),
             Op::Text { new_env, old_env, new_svc, old_svc, .. } => 20 + new_env.0.values().map(|t| t.nodes()).sum::<usize>() + old_env.0.values().map(|t| t.nodes()).sum::<usize>() + new_svc.nodes() + old_svc.nodes(),
+            Op::Native { .. } => 6,
         })
         .sum();
     env_nodes + ops + sc.rename.len() + if sc.exhaust.is_some() { 100_000 } else { 0 }
